@@ -170,8 +170,6 @@ def cases(tier):
     cs = []
     for key, fams in FAMILIES.items():
         for fi, (famname, mk) in enumerate(fams):
-            if tier == 'quick' and famname == 'rot' and key not in ('cocostr', 'lipstr', 'coco', 'negcomo'):
-                continue          # (2-D rotation members: quick tier keeps them for the two-parameter operator classes)
             variants = []
             has_min = famname not in NO_MIN and not (key in ('monotone', 'strmono', 'coco', 'lipop', 'nonexp', 'cocostr',
                                                              'lipstr', 'negcomo', 'symlin', 'skew', 'linop'))
